@@ -6,6 +6,7 @@ from .. import harness as H, hist, loader
 
 PROP = "C14"
 LEVEL = "exploration"
+ANCHORS = ["add_comp", "add_source", "change_comp", "del_comp", "_chk_"]  # functions whose reached lines are reported in the evidence
 RULE = (
     "cases = random edit histories of 5-60 operations over all four edit methods and all component kinds, with "
     "names AND rails drawn from one shared pool of 10 strings (frequent collisions between names, between rails "
